@@ -746,6 +746,23 @@ class World:
             rel = "same" if c == a[1].cls else ("down" if tree.is_sub(c, a[1].cls) else "up")
             self.rec.label(f"convert:{rel}")
             self.add_args(obj, m, f"convert_{rel}")
+        # the same conversion on short-lived sets: each temporary is dropped before the next one is created (CPython
+        # then usually re-uses its memory, hence its id()); results may only depend on the set's contents
+        for x in [e for e in self.args_pool if tree.related(e[1].cls, c)][:5]:
+            try:
+                mm = tree.convert(x[1], c)
+            except Reject:
+                continue
+            try:
+                tmp = R.RenderArgs(self.cls(x[1].cls), *list(x[0]))  # built from the namespaces: a new object
+                res = tmp.convert(self.cls(c))
+            except Exception as e:
+                self.fail(f"convert() of a temporary copy of {self._args_desc(x)} raised {type(e).__name__}: {e}", "raised", op="convert_temp")
+            del tmp
+            self.opdesc = f"RenderArgs({self.cname(x[1].cls)}, {self._args_desc(x)}).convert({self.cname(c)})  # temporary set"
+            self.check_args(res, mm, "convert() of a short-lived set")
+            res = None
+            self.rec.label("convert_temp")
 
     def op_or(self, op):
         tree = self.tree
